@@ -201,7 +201,8 @@ def gvw_unit(ctx):
     every comparison made for one call must be made under the SAME flags: with ELLIPSIS off, renaming the marker
     '...' to 'ZZZ' everywhere must not change the answer; with it on, a want that is only the marker accepts"""
     rng = ctx.rng('gvw')
-    texts = ['', 'a', 'a b', 'a  b', 'a...b', '...', 'a x b', 'a\nb', 'a\n\nb', 'a\n<BLANKLINE>\nb', "'a'", "u'a'", 'b b b', 'a bab b', 'a ... b', 'a b ']
+    texts = ['', 'a', 'a b', 'a  b', 'a...b', '...', 'a x b', 'a\nb', 'a\n\nb', 'a\n<BLANKLINE>\nb', "'a'", "u'a'", 'b b b', 'a bab b', 'a ... b', 'a b ',
+             'a\n<BLANKLINE>', 'a\n\n', '<BLANKLINE>', '\n', 'a\n<BLANKLINE>\n', '<BLANKLINE>\na']
     triples = []
     for want in texts[1:]:
         for out in texts:
@@ -227,6 +228,18 @@ def gvw_unit(ctx):
                                   'value_repr': ev, 'flags': {nme: bool((i >> k) & 1) for k, nme in enumerate(GVW_NAMES)},
                                   'theorem_or_correspondence': 'correspondence check_got_vs_want (feeds C02_want_iff; all comparisons of one part under that part\'s flags)'},
                                   bool(problem)))
+    # a want that renders the output exactly as the REPL shows it (blank lines spelled <BLANKLINE>) is satisfied under
+    # every flag setting that accepts the marker
+    for out in ['a\n\n', 'a\n\nb\n', '\n', 'a\n\n\nb\n', '\n\na\n', 'a b\n\n']:
+        body = out[:-1] if out.endswith('\n') else out
+        want = '\n'.join(l if l else '<BLANKLINE>' for l in body.split('\n'))
+        for i in range(16):          # DONT_ACCEPT_BLANKLINE (bit 4) off
+            ctx.evaluations += 1
+            a = _gvw_impl(want, out, None, i)
+            if a != 'ok':
+                found.append((0, {'what': 'a want that spells the blank lines of the output as <BLANKLINE> is rejected (%s)' % a, 'want': want, 'stdout': out,
+                              'value_repr': None, 'flags': {nme: bool((i >> k) & 1) for k, nme in enumerate(GVW_NAMES)},
+                              'theorem_or_correspondence': 'C02: a correct want never fails (blank-line marker)'}, True))
     found.sort(key=lambda x: x[0])        # inputs on which the property itself fails first
     for _, payload, has_input in found[:5]:
         ctx.violation('gvw-unit', payload, has_input)
